@@ -85,12 +85,67 @@ pub fn c19_builds(r: &Runner) {
     run_build(r, "no-default-features: cargo build --no-default-features", &mut c);
 }
 
+/// SCREAMING_SNAKE identifiers of the source under test: candidates for environment variables
+/// the code might consult at run time
+fn env_candidates() -> Vec<String> {
+    let root = std::env::var("VERIF_REPO").unwrap_or_else(|_| "/repo".to_string());
+    let mut out: Vec<String> = vec![];
+    for f in ["src/lib.rs", "src/iter.rs", "src/macros.rs", "src/simd/mod.rs", "src/simd/swar.rs", "src/simd/sse42.rs", "src/simd/avx2.rs", "src/simd/runtime.rs"] {
+        if let Ok(s) = std::fs::read_to_string(format!("{}/{}", root, f)) {
+            let cut = s.find("#[cfg(test)]\nmod tests").unwrap_or(s.len());
+            let mut cur = String::new();
+            for ch in s[..cut].chars().chain(std::iter::once(' ')) {
+                if ch.is_ascii_uppercase() || ch.is_ascii_digit() || ch == '_' {
+                    cur.push(ch);
+                } else {
+                    if cur.len() >= 6 && cur.contains('_') && cur.chars().next().map(|c| c.is_ascii_uppercase()).unwrap_or(false) && !out.contains(&cur) {
+                        out.push(cur.clone());
+                    }
+                    cur.clear();
+                }
+            }
+        }
+    }
+    out.truncate(200);
+    out
+}
+
+/// Cold start under a rich environment: every candidate variable set, the cached feature cell
+/// reset (hook H2) before each armed call, on every worker thread.
+fn c19_cold_start(r: &Runner) {
+    let names = env_candidates();
+    for n in &names {
+        std::env::set_var(n, "1");
+    }
+    r.note(format!("cold-start phase ran with {} candidate environment variables set to 1", names.len()));
+    const MSGS: [(&[u8], Entry); 4] = [
+        (b"GET /a/long/target/longer/than/thirty-two/bytes/for/the/vector/path HTTP/1.1\r\nHost: a value longer than thirty-two bytes for the vector path\r\n\r\n", Entry::ReqParse),
+        (b"HTTP/1.1 200 OK\r\nServer: a value that is longer than thirty-two bytes for the vector path\r\n\r\n", Entry::RespParse),
+        (b"Name: 0123456789abcdef0123456789abcdef0123456789abcdef\r\n\r\n", Entry::Headers),
+        (b"ff;ext\r\n", Entry::Chunk),
+    ];
+    r.par_enum("cold start: cached CPU-feature cell reset to 0 before every armed call, candidate environment variables set", 4 * 400, |ctx, l, idx| {
+        let (m, e) = MSGS[(idx % 4) as usize];
+        httparse::_verif::simd::set_runtime_feature(0);
+        let rec = CaseRec::new("alloc", e, 0, 4, m.to_vec());
+        check_c19(r, ctx, l, &rec)
+    });
+    for n in &names {
+        std::env::remove_var(n);
+    }
+    set_backend(0);
+}
+
 pub fn run_c19(r: &Runner) {
     if !crate::alloc::installed() {
         r.inconclusive.lock().unwrap().push("counting allocator is not installed in this binary".into());
         return;
     }
     c19_builds(r);
+    if r.stopped() {
+        return;
+    }
+    c19_cold_start(r);
     if r.stopped() {
         return;
     }
@@ -316,7 +371,7 @@ fn cachegrind_phase(r: &Runner) {
             bins.push(("simd-disabled", b));
         }
     }
-    let sizes: &[usize] = if r.quick() { &[1024] } else { &[1024, 4096] };
+    let sizes: &[usize] = if r.quick() { &[1024, 8192] } else { &[1024, 8192, 32768] };
     let mut jobs = vec![];
     for (bi, _) in bins.iter().enumerate() {
         for f in 0..gen::N_FAMILIES {
